@@ -286,7 +286,16 @@ func addrImmConst(t immType, i instruction, w expr.Width) expr.Const {
 	if !ok {
 		panic(fmt.Sprintf("immediate encoding %d has no value", t))
 	}
-	return expr.NewConstUint(addrAddImm(i.addr, imm), w)
+	return expr.NewConstUint(wrapAddr(addrAddImm(i.addr, imm), w), w)
+}
+
+// wrapAddr wraps address a around the address space of w bytes wide
+// addresses. Address arithmetic is always modulo the address space size.
+func wrapAddr(a model.Addr, w expr.Width) model.Addr {
+	if bits := w.Bits(); bits < 64 {
+		return a & (model.Addr(1)<<bits - 1)
+	}
+	return a
 }
 
 func branchCmp(
@@ -296,7 +305,7 @@ func branchCmp(
 	w expr.Width,
 ) expr.Effect {
 	jumpTarget := addrImmConst(immTypeB, i, w)
-	nextInstr := expr.NewConstUint(i.addr+instructionLen, w)
+	nextInstr := expr.NewConstUint(wrapAddr(i.addr+instructionLen, w), w)
 
 	condTrue, condFalse := jumpTarget, nextInstr
 	if !branchIfTrue {
